@@ -2,7 +2,10 @@
 
 package dicescript
 
+import "fmt"
+
 func init() {
+	vHarnesses["VH_C12_conc"] = VH_C12_conc
 	vHarnesses["VH_C12_hist"] = VH_C12_hist
 	vHarnesses["VH_C12_step"] = VH_C12_step
 }
@@ -239,4 +242,241 @@ func VH_C12_step() {
 		vAssert(abs[k] == v, "step.abstract-state.value")
 	}
 	vAssert(m.Length() == len(ref), "step.Length")
+}
+
+// ---------------------------------------------------------------------
+// concurrent half: bounded interleavings of two threads
+
+type vC12Op struct {
+	thread, op int
+	key        string
+	val        *VMValue // argument
+	got        *VMValue // result value (Load, LoadOrStore, LoadAndDelete)
+	ok         bool     // result flag
+	n          int      // Length result
+	start, end int      // scheduler clock at invocation / response
+}
+
+func vC12Do(m *ValueMap, o *vC12Op) {
+	o.start = vClock()
+	switch o.op {
+	case 0:
+		m.Store(o.key, o.val)
+	case 1:
+		o.got, o.ok = m.Load(o.key)
+	case 2:
+		o.got, o.ok = m.LoadOrStore(o.key, o.val)
+	case 3:
+		o.got, o.ok = m.LoadAndDelete(o.key)
+	case 4:
+		m.Delete(o.key)
+	case 5:
+		m.Clear()
+	case 6:
+		o.n = m.Length()
+	}
+	o.end = vClock()
+}
+
+// vC12Seq applies o to the abstract map and says whether the recorded
+// result is the one a sequential map gives.
+func vC12Seq(ref map[string]*VMValue, o *vC12Op) bool {
+	switch o.op {
+	case 0:
+		ref[o.key] = o.val
+		return true
+	case 1:
+		w, ok := ref[o.key]
+		return ok == o.ok && w == o.got
+	case 2:
+		w, ok := ref[o.key]
+		if !ok {
+			ref[o.key] = o.val
+			w = o.val
+		}
+		return ok == o.ok && w == o.got
+	case 3:
+		w, ok := ref[o.key]
+		delete(ref, o.key)
+		return ok == o.ok && w == o.got
+	case 4:
+		delete(ref, o.key)
+		return true
+	case 5:
+		for k := range ref {
+			delete(ref, k)
+		}
+		return true
+	case 6:
+		return o.n == len(ref)
+	}
+	return false
+}
+
+// vC12Linearizable: is there a total order of ops that respects program order
+// and real-time order (an operation that responded before another was invoked
+// comes first), explains every recorded result sequentially from pre, and ends
+// in the observed final contents?
+func vC12Linearizable(pre map[string]*VMValue, ops []*vC12Op, final map[string]*VMValue) bool {
+	n := len(ops)
+	perm := make([]int, 0, n)
+	used := make([]bool, n)
+	var rec func() bool
+	rec = func() bool {
+		if len(perm) == n {
+			ref := map[string]*VMValue{}
+			for k, v := range pre {
+				ref[k] = v
+			}
+			for _, i := range perm {
+				if !vC12Seq(ref, ops[i]) {
+					return false
+				}
+			}
+			if len(ref) != len(final) {
+				return false
+			}
+			for k, v := range ref {
+				if final[k] != v {
+					return false
+				}
+			}
+			return true
+		}
+		for i := 0; i < n; i++ {
+			if used[i] {
+				continue
+			}
+			// every unused op that must precede i has to be placed already
+			okPos := true
+			for j := 0; j < n; j++ {
+				if j == i || used[j] {
+					continue
+				}
+				if ops[j].end < ops[i].start || (ops[j].thread == ops[i].thread && j < i) {
+					okPos = false
+				}
+			}
+			if !okPos {
+				continue
+			}
+			used[i] = true
+			perm = append(perm, i)
+			if rec() {
+				return true
+			}
+			perm = perm[:len(perm)-1]
+			used[i] = false
+		}
+		return false
+	}
+	return rec()
+}
+
+const vC12ConcOps = 7 // Store Load LoadOrStore LoadAndDelete Delete | Clear Length
+
+//vh:prop=C12 tiers=quick,thorough sigkeys=op budget_s=3000 maxsteps=40000000 quick:P.opsA=1 quick:P.preempt=1 thorough:P.opsA=2 thorough:P.preempt=2 bounds="two threads on one ValueMap started in any representation state over keys {a,b} that satisfies INV_map (as VH_C12_step, misses in 0..2): thread A performs opsA operations (1 quick, 2 thorough), thread B one, each from {Store, Load, LoadOrStore, LoadAndDelete, Delete} x {a,b} and {Clear, Length}; sequentially consistent interleavings with scheduling points at every mutex and atomic operation and at most preempt (1 quick, 2 thorough) pre-emptive context switches; afterwards (quiescent) Length, Load of every key and Range are read: the history is linearizable w.r.t. a Go map (program order, real-time order, every result, final contents) and INV_map holds again.  Range and Length with two concurrent writers are not snapshots by design (as sync.Map.Range) and are outside the claim; weak-memory behaviours are outside (the code is assumed data-race-free, which go test -race and the footprint of plain stores support)"
+func VH_C12_conc() {
+	m := &ValueMap{}
+	rm := map[string]*entryValueMap{}
+	var dm map[string]*entryValueMap
+	if vChoice("dirtyNil", 2) == 0 {
+		dm = map[string]*entryValueMap{}
+	}
+	amended := vChoice("amended", 2) == 1
+	for i, k := range []string{"a", "b"} {
+		val := NewIntVal(IntType(10 + i))
+		switch vChoice("state_"+k, 6) {
+		case 0:
+		case 1:
+			e := &entryValueMap{}
+			rm[k] = e
+			if dm != nil {
+				dm[k] = e
+			}
+		case 2:
+			rm[k] = &entryValueMap{p: expungedValueMap}
+		case 3:
+			e := newEntryValueMap(val)
+			rm[k] = e
+			if dm != nil {
+				dm[k] = e
+			}
+		case 4:
+			vAssume(dm != nil)
+			dm[k] = &entryValueMap{}
+		case 5:
+			vAssume(dm != nil)
+			dm[k] = newEntryValueMap(val)
+		}
+	}
+	if len(rm) > 0 || amended {
+		m.read.Store(readOnlyValueMap{m: rm, amended: amended})
+	}
+	m.dirty = dm
+	m.misses = vChoice("misses", 3)
+	vAssume(vC12Inv(m))
+	pre := vC12Abs(m)
+
+	mkOp := func(thread, idx int) *vC12Op {
+		c := vChoice("op", 5*2+2)
+		o := &vC12Op{thread: thread, val: NewIntVal(IntType(100 + 10*thread + idx))}
+		if c < 10 {
+			o.op, o.key = c/2, vC12Keys[c%2]
+		} else {
+			o.op = 5 + (c - 10)
+		}
+		return o
+	}
+	var ops []*vC12Op
+	nA := vParam("opsA", 1)
+	for i := 0; i < nA; i++ {
+		ops = append(ops, mkOp(0, i))
+	}
+	ops = append(ops, mkOp(1, 0))
+	// Length is claimed as a snapshot only against a single concurrent operation
+	if nA > 1 {
+		vAssume(ops[nA].op != 6)
+	}
+	vThreads2(vParam("preempt", 2), func() {
+		for i := 0; i < nA; i++ {
+			vC12Do(m, ops[i])
+		}
+	}, func() {
+		vC12Do(m, ops[nA])
+	})
+	vReach("threads-joined")
+	// quiescent observation
+	final := map[string]*VMValue{}
+	cnt := 0
+	m.Range(func(k string, v *VMValue) bool {
+		cnt++
+		final[k] = v
+		return true
+	})
+	vAssert(cnt == len(final), "quiescent.Range-visits-each-key-once")
+	vAssert(m.Length() == len(final), "quiescent.Length-equals-Range")
+	for _, k := range vC12Keys {
+		got, ok := m.Load(k)
+		w, wok := final[k]
+		vAssert(ok == wok && got == w, "quiescent.Load-agrees-with-Range")
+	}
+	// the history as the scheduler produced it (compared byte for byte
+	// between engine and native replay of the same schedule)
+	hist := ""
+	for _, o := range ops {
+		g := int64(-1)
+		if o.got != nil {
+			g = int64(o.got.MustReadInt())
+		}
+		hist += fmt.Sprintf("t%d op%d %s ok=%v got=%d n=%d [%d,%d]; ", o.thread, o.op, o.key, o.ok, g, o.n, o.start, o.end)
+	}
+	for _, k := range vC12Keys {
+		if v, ok := final[k]; ok {
+			hist += fmt.Sprintf("%s=%d ", k, v.MustReadInt())
+		}
+	}
+	vObserve("history", hist)
+	vAssert(vC12Linearizable(pre, ops, final), "history-is-linearizable")
+	vAssert(vC12Inv(m), "quiescent.invariant-holds")
 }
